@@ -14,6 +14,8 @@ pub struct Viol {
     pub detail: String,
     /// id of the GUI step / direct item the violation is attached to
     pub at: u32,
+    /// direct-call sweeps: the stop index of the failing search
+    pub k: Option<u64>,
 }
 
 #[derive(Clone, Debug, Default)]
@@ -53,6 +55,7 @@ pub struct GoRec {
     pub stop_kind: Option<&'static str>,
     pub search_exit_polls: Option<u64>,
     pub search_exited: bool,
+    pub spawned: u32,
 }
 
 #[derive(Default)]
@@ -66,11 +69,15 @@ pub struct Analysis {
     pub answered_gos: u32,
     pub infos_checked: u32,
     pub pv_moves_checked: u32,
+    pub stops_observed: u32,
+    pub distinct_keys: Vec<String>,
+    cur_k: Option<u64>,
 }
 
 impl Analysis {
     fn v(&mut self, prop: &'static str, rule: &'static str, at: u32, detail: String) {
-        self.viols.push(Viol { prop, rule, detail, at });
+        let k = self.cur_k;
+        self.viols.push(Viol { prop, rule, detail, at, k });
     }
     fn probe(&mut self, k: &'static str) {
         *self.probes.entry(k).or_insert(0) += 1;
@@ -248,7 +255,7 @@ pub fn analyse_session(case: &Case, out: &Outcome) -> Analysis {
                             Some(Ok((_, n))) if n < 399 => {
                                 if busy && sent_after_best {
                                     a.v("C14", "R5-command-after-bestmove-refused", cmd_id, format!("`{}` was sent after the GUI had received every outstanding bestmove, engine answered `{}`", cmd_line, cmd_errs.join(" | ")));
-                                } else if !busy {
+                                } else if !busy && sent_after_best {
                                     a.v("C14", "R5-position-not-honoured", cmd_id, format!("valid `{}` answered `{}`", cmd_line, cmd_errs.join(" | ")));
                                 }
                             }
@@ -270,7 +277,7 @@ pub fn analyse_session(case: &Case, out: &Outcome) -> Analysis {
                             let busy = cmd_errs.iter().any(|e| e.contains("search is still running"));
                             if busy && sent_after_best {
                                 a.v("C14", "R5-command-after-bestmove-refused", cmd_id, format!("`{}` was sent after the GUI had received every outstanding bestmove, engine answered `{}`", cmd_line, cmd_errs.join(" | ")));
-                            } else if !busy && gos[gi].root_known && gos[gi].root.is_some() {
+                            } else if !busy && sent_after_best && gos[gi].root_known && gos[gi].root.is_some() {
                                 a.v("C14", "R5-go-not-honoured", cmd_id, format!("`{}` after an accepted position answered `{}`", cmd_line, cmd_errs.join(" | ")));
                             }
                         }
@@ -435,6 +442,7 @@ pub fn analyse_session(case: &Case, out: &Outcome) -> Analysis {
                 if e.th == 0 {
                     if let Some(gi) = cmd_go {
                         thread_go.insert(*child, gi);
+                        gos[gi].spawned += 1;
                     }
                 }
             }
@@ -594,9 +602,10 @@ pub fn analyse_session(case: &Case, out: &Outcome) -> Analysis {
             };
             match g.sleep_ns {
                 None => {
-                    // main may not have got as far as spawning the timer (budget, crash)
-                    if g.search.is_some() || g.n_best > 0 {
-                        a.v("C13", "R2-no-timer", g.cmd, format!("`{}` was given a time budget but no timer was armed", g.line));
+                    // a timer thread that was spawned but had not started to sleep when the run ended cannot be judged;
+                    // a `go` that spawned the search thread only has armed no timer at all
+                    if g.spawned < 2 && (g.search.is_some() || g.n_best > 0) {
+                        a.v("C13", "R2-no-timer", g.cmd, format!("`{}` was given a time budget but no timer thread was started", g.line));
                     }
                 }
                 Some(ns) => {
@@ -647,6 +656,22 @@ pub fn analyse_session(case: &Case, out: &Outcome) -> Analysis {
                     a.v("C14", "R3-lost-stop", g.cmd, format!("`{}`: the timer thread has fired and exited, the search ran {} more polls and never answered", g.line, total_tp - tp));
                     a.v("C13", "R3-late", g.cmd, format!("`{}`: time budget elapsed, search ran {} more polls without answering", g.line, total_tp - tp));
                 }
+            }
+        }
+    }
+
+    // C13: low clocks shorten, never extend (cases tagged `mono`: same position, same increment, W1 <= W2)
+    if case.has_tag("mono") {
+        let timed: Vec<&GoRec> = gos.iter().filter(|g| g.accepted && g.clocks.is_some() && g.sleep_ns.is_some() && g.root.is_some()).collect();
+        for w in timed.windows(2) {
+            let own = |g: &GoRec| {
+                let (wt, bt, wi, bi) = g.clocks.unwrap();
+                if g.root.as_ref().unwrap().white_to_move() { (wt, wi) } else { (bt, bi) }
+            };
+            let (a1, i1) = own(w[0]);
+            let (a2, i2) = own(w[1]);
+            if i1 == i2 && a1 <= a2 && w[0].sleep_ns.unwrap() > w[1].sleep_ns.unwrap() {
+                a.v("C13", "R1-low-clock-extends", w[0].cmd, format!("`{}` is allotted {} ns but the larger clock `{}` only {} ns", w[0].line, w[0].sleep_ns.unwrap(), w[1].line, w[1].sleep_ns.unwrap()));
             }
         }
     }
@@ -709,7 +734,10 @@ pub fn analyse_direct(case: &Case, out: &Outcome) -> Analysis {
                         Some("begin") => {
                             k = Some(idx);
                             let item = &case.items[idx];
-                            g = GoRec { cmd: idx as u32, line: format!("item {}: {} moves {:?} depth {:?} stop_at {:?}", idx, item.root, item.moves, item.depth, item.stop_at), accepted: true, read_t: e.t, read_tp: e.tp, ..Default::default() };
+                            let stop: Option<u64> = it.next().and_then(|s| s.strip_prefix("stop=")).and_then(|s| s.parse().ok());
+                            a.cur_k = stop;
+                            g = GoRec { cmd: idx as u32, line: format!("item {}: {} moves [{}] depth {:?} stop_at {:?}", idx, item.root, item.moves.join(" "), item.depth, stop), accepted: true, read_t: e.t, read_tp: e.tp, ..Default::default() };
+                            g.movetime = stop; // (re-used as the chosen stop index in direct mode)
                             let mut p = crate::gui::root_pos(&item.root);
                             if let Some(pp) = p.as_mut() {
                                 for m in &item.moves {
@@ -763,9 +791,14 @@ pub fn analyse_direct(case: &Case, out: &Outcome) -> Analysis {
                                         break;
                                     }
                                 }
-                                if item.stop_at.is_some() && !stopped {
+                                if g.movetime.is_some() && !stopped {
                                     a.probe("search ended by itself before the chosen stop instant");
                                 }
+                                if stopped {
+                                    a.stops_observed += 1;
+                                    a.distinct_keys.push(format!("{}|{}|{}|{:?}", idx, item.root, item.moves.len(), g.movetime));
+                                }
+                                let _ = item;
                                 if g.infos.first().map_or(false, |(_, _, p)| *p == 0) && g.root.as_ref().map_or(false, |r| r.legal_moves().len() > 1) {
                                     a.probe("first iteration answered from the table without a poll");
                                 }
@@ -788,6 +821,7 @@ pub fn analyse_direct(case: &Case, out: &Outcome) -> Analysis {
                                     }
                                 }
                                 gos.push(std::mem::take(&mut g));
+                                a.cur_k = None;
                             }
                         }
                         _ => {}
@@ -851,12 +885,16 @@ pub fn analyse_direct(case: &Case, out: &Outcome) -> Analysis {
 pub fn analyse_autoplay(_case: &Case, out: &Outcome) -> Analysis {
     let mut a = Analysis::default();
     let mut boards = 0u32;
+    let mut last_fen: Option<String> = None;
     for e in &out.events {
         match &e.k {
             EvK::Panic { msg, loc } => classify_panic(&mut a, msg, loc, boards, true),
             EvK::Out { line, .. } => {
-                if line.starts_with("Fen: ") {
-                    boards += 1;
+                for l in line.lines() {
+                    if let Some(f) = l.strip_prefix("Fen: ") {
+                        boards += 1;
+                        last_fen = Some(f.to_string());
+                    }
                 }
             }
             _ => {}
@@ -868,9 +906,60 @@ pub fn analyse_autoplay(_case: &Case, out: &Outcome) -> Analysis {
         a.probe("self-play game reached 399 plies");
     }
     match &out.verdict {
-        Verdict::Exit(Ok(())) => a.probe("self-play ended by itself"),
+        Verdict::Exit(Ok(())) => {
+            a.probe("self-play ended by itself");
+            // the game ends when the search returns no move: legitimate only in a position without legal moves
+            // (or at a length limit the engine may impose on itself)
+            if let Some(f) = &last_fen {
+                if let Ok(p) = Pos::from_fen(f) {
+                    let n = p.legal_moves().len();
+                    if n > 0 && boards < 390 {
+                        a.v("C07", "R1-stopped-answer", boards, format!("self-play ended after {} plies with `no move` although {} legal moves exist in {}", boards - 1, n, f));
+                    } else if n == 0 {
+                        a.probe("self-play reached mate or stalemate");
+                    }
+                }
+            }
+        }
         Verdict::StepLimit | Verdict::PollLimit => a.inconclusive = a.viols.is_empty(),
+        Verdict::MainPanicked => {
+            if !a.viols.iter().any(|v| v.rule == "R1-panic") {
+                a.v("C14", "R1-panic", boards, "self-play panicked".into());
+            }
+        }
         _ => {}
     }
     a
+}
+
+/// C19: the `info depth/score/nodes/pv` lines and the bestmove of the last accepted `go` of a session
+pub fn last_search_transcript(case: &Case, out: &Outcome, an: &Analysis) -> Option<Vec<String>> {
+    let id: u32 = case.tags.iter().find_map(|t| t.strip_prefix("c19go="))?.parse().ok()?;
+    let g = an.gos.iter().find(|g| g.accepted && g.cmd == id)?;
+    let th = g.search?;
+    let mut v = vec![];
+    for e in &out.events {
+        if e.th == th {
+            if let EvK::Out { line, .. } = &e.k {
+                v.push(line.clone());
+            }
+        }
+    }
+    if g.n_best == 0 {
+        return None;
+    }
+    Some(v)
+}
+
+pub fn compare_c19(a: &mut Analysis, case: &Case, base: Option<Vec<String>>, got: Option<Vec<String>>) {
+    match (base, got) {
+        (Some(b), Some(g)) => {
+            if b != g {
+                let k = b.iter().zip(g.iter()).position(|(x, y)| x != y).unwrap_or(b.len().min(g.len()));
+                a.v("C19", "R1-transcript-differs", 0, format!("[{}] line {} of the search transcript: fresh engine printed `{}`, this run printed `{}`", case.family, k + 1, b.get(k).map(|s| s.as_str()).unwrap_or("<nothing>"), g.get(k).map(|s| s.as_str()).unwrap_or("<nothing>")));
+            }
+        }
+        (None, _) => a.inconclusive = true,
+        (_, None) => a.inconclusive = true,
+    }
 }
